@@ -688,6 +688,11 @@ impl<W: Word, B: AsRef<[W]> + AsMut<[W]>> BitFieldSliceMut<W> for BitFieldVec<W,
         }
         let bit_width = self.bit_width();
         if bit_width == 0 {
+            // There is nothing to store, but the function is still applied
+            // once per element
+            for _ in 0..self.len() {
+                f(W::ZERO);
+            }
             return;
         }
         let mask = self.mask();
